@@ -8,6 +8,7 @@ package c12_test
 import (
 	"encoding/binary"
 	"fmt"
+	"os"
 	"sort"
 	"strings"
 	"sync"
@@ -97,6 +98,15 @@ func (e *exec) class(c string) { e.classes[c] = true }
 func (e *exec) bad(format string, a ...any) {
 	if len(e.violations) < 6 {
 		e.violations = append(e.violations, fmt.Sprintf(format, a...))
+	}
+	if os.Getenv("VERIF_C12_DEBUG") != "" {
+		fmt.Printf("C12DEBUG violation: %s\n", fmt.Sprintf(format, a...))
+		for _, r := range e.reqs {
+			fmt.Printf("C12DEBUG   req #%d id=%d handled=%d fin=%v touched=%v to=%v illegal=%v unsure=%v\n", r.seq, r.id, r.handled, r.finishStarted, r.touched, r.cls.hasTO, r.illegalReasons(), r.cls.unsure)
+		}
+		for _, f := range e.peer.Ledger().FramesOf(h2peer.In, 0, true) {
+			fmt.Printf("C12DEBUG   in: %v\n", f)
+		}
 	}
 }
 
@@ -191,6 +201,20 @@ func (e *exec) resolve(mode string, k int) (uint32, []*reqState) {
 		if len(live) > 0 {
 			r := live[k%len(live)]
 			return r.id, e.byID[r.id]
+		}
+		fallthrough
+	case mDone:
+		if mode == mDone {
+			var done []*reqState
+			for _, r := range e.reqs {
+				if r.finishStarted {
+					done = append(done, r)
+				}
+			}
+			if len(done) > 0 {
+				r := done[k%len(done)]
+				return r.id, e.byID[r.id]
+			}
 		}
 		fallthrough
 	case mSent:
@@ -450,13 +474,18 @@ func (e *exec) doStep(st Step) {
 			return
 		}
 		payload := grpcMsg(st.N)
+		if st.Var == "empty" {
+			payload = nil
+		}
 		e.mu.Lock()
 		for _, r := range rs {
 			flow := len(payload)
 			if st.Pad > 0 {
 				flow += st.Pad
 			}
-			if r.es || r.dataBytes+flow > 65535 {
+			rep := max(1, st.F)
+			flow *= rep
+			if r.es || r.dataBytes+flow > 65535 || (rep > 1 && st.ES) {
 				r.touched = true // DATA after END_STREAM / beyond the stream window: the server resets the stream
 				e.class("frame:data_hostile")
 			} else {
@@ -468,7 +497,15 @@ func (e *exec) doStep(st Step) {
 			}
 		}
 		e.mu.Unlock()
-		send(dataFrames(id, payload, st.ES, st.Pad, 16384))
+		b := dataFrames(id, payload, st.ES, st.Pad, 16384)
+		for i := 1; i < st.F; i++ { // F >= 2: the same frame(s) again (e.g. END_STREAM twice)
+			b = append(b, dataFrames(id, payload, st.ES, st.Pad, 16384)...)
+			e.class("frame:data_repeated")
+		}
+		if st.M == mDone {
+			e.class("frame:data_on_finished_stream")
+		}
+		send(b)
 	case kWU:
 		id, rs := e.resolve(st.M, st.S)
 		if st.N == 0 || st.N >= 1<<30 {
